@@ -8,28 +8,33 @@ Theorem C07_validator : forall l, validate_signature l = Ok tt <-> GrammarSig l.
 Proof. intros l. rewrite grammar_iff_ast. exact (validate_signature_spec l). Qed.
 Print Assumptions C07_validator.
 
-(* the structural parser accepts exactly the non-empty strings of the grammar ... *)
-Theorem C07_parser : forall l, (exists tys, parse_description l = Ok tys) <-> (l <> [] /\ GrammarSig l).
+(* the structural parser accepts exactly the strings of the grammar, the empty one included ... *)
+Theorem C07_parser : forall l, (exists tys, parse_description l = Ok tys) <-> GrammarSig l.
 Proof.
   intros l. rewrite grammar_iff_ast. split.
-  - intros [tys H]. apply parse_description_spec in H. destruct H as [Hne H]. split; [exact Hne|now exists tys].
-  - intros [Hne [tys H]]. exists tys. apply parse_description_spec. auto.
+  - intros [tys H]. exists tys. now apply parse_description_spec.
+  - intros [tys H]. exists tys. now apply parse_description_spec.
 Qed.
 Print Assumptions C07_parser.
 
 (* ... and returns the types whose printed forms concatenate to the input (so printing reproduces it) *)
-Theorem C07_parser_types : forall l tys, parse_description l = Ok tys <-> (l <> [] /\ sig_of_types l tys).
+Theorem C07_parser_types : forall l tys, parse_description l = Ok tys <-> sig_of_types l tys.
 Proof. exact parse_description_spec. Qed.
 Print Assumptions C07_parser_types.
 
 Theorem C07_print : forall l tys, parse_description l = Ok tys -> to_str_list tys = l.
-Proof. intros l tys H. apply parse_description_spec in H. destruct H as (_ & _ & _ & _ & ->). reflexivity. Qed.
+Proof. intros l tys H. apply parse_description_spec in H. destruct H as (_ & _ & _ & ->). reflexivity. Qed.
 Print Assumptions C07_print.
 
-(* both give the same verdict on every non-empty string *)
-Theorem C07_agree : forall l, l <> [] -> is_ok (parse_description l) = is_ok (validate_signature l).
+(* both give the same verdict on every string *)
+Theorem C07_agree : forall l, is_ok (parse_description l) = is_ok (validate_signature l).
 Proof. exact parser_validator_agree. Qed.
 Print Assumptions C07_agree.
+
+(* the empty string is the signature of no types: in the grammar, accepted by both, parsed to no types *)
+Theorem C07_empty : GrammarSig [] /\ parse_description [] = Ok [] /\ validate_signature [] = Ok tt.
+Proof. split; [apply grammar_iff_ast; exact valid_sig_nil|]. split; reflexivity. Qed.
+Print Assumptions C07_empty.
 
 (* the splitter yields exactly the top-level complete types of a valid signature *)
 Theorem C07_split : forall l, GrammarSig l ->
